@@ -547,6 +547,18 @@ def array_into_iter(eng, st, fr, args, fn, site):
     return None
 
 
+def slice_iter(eng, st, fr, args, fn, site):
+    """<[T]>::iter(&arr) over an array whose elements are known (a constant table): an iterator positioned at its start;
+    the items are references to the elements"""
+    a = ptr_term(args[0])
+    if a[0] == 'ref':
+        arr = eng.load(st, a[1])
+        if arr[0] == 'agg' and arr[2] is None and 0 < len(arr[3]) <= 16:
+            elems = tuple(('ref', (a[1][0], a[1][1] + (('f', k, None),))) for k in range(len(arr[3])))
+            return T('arr_iter', ('agg', 'array', None, elems), C(0, 'usize'))
+    return None
+
+
 def array_iter_next(eng, st, fr, args, fn, site):
     d = ptr_term(args[0])
     if d[0] != 'ref':
@@ -1107,6 +1119,11 @@ SUMMARIES = {
     'std::option::Option::<T>::zip': opt_zip,
     'std::array::<impl [T; N]>::map': array_map,
     'std::array::iter::<impl std::iter::IntoIterator for [T; N]>::into_iter': array_into_iter,
+    'std::slice::<impl [T]>::iter': slice_iter,
+    "<std::slice::iter::Iter<'a, T> as std::iter::Iterator>::next": array_iter_next,
+    "<std::slice::iter::Iter<'a, T> as std::iter::Iterator>::find": iter_find,
+    "<std::slice::Iter<'a, T> as std::iter::Iterator>::next": array_iter_next,
+    "<std::slice::Iter<'a, T> as std::iter::Iterator>::find": iter_find,
     '<std::array::IntoIter<T, N> as std::iter::Iterator>::next': array_iter_next,
     '<std::array::iter::IntoIter<T, N> as std::iter::Iterator>::next': array_iter_next,
     'std::option::Option::<T>::or_else': hof(OPT, 'None', _rb_or_else_opt),
